@@ -101,7 +101,11 @@ func (k Keeper) CalculateReward(ctx sdk.Context, addr sdk.AccAddress, id uint64)
 		// Get global vote counts for the past dispute
 		pastVoteCounts, err := k.VoteCountsByGroup.Get(ctx, pastId)
 		if err != nil {
-			return math.Int{}, err
+			if !errors.Is(err, collections.ErrNotFound) {
+				return math.Int{}, err
+			}
+			// nobody voted in that round: it adds nothing to the global powers
+			continue
 		}
 		// Add up the global power for each group
 		globalReporterPower = globalReporterPower.Add(math.NewIntFromUint64(pastVoteCounts.Reporters.Support)).
